@@ -19,7 +19,8 @@ PARTIAL = ["numpy's generator (uniformity, choice honouring p), seed reproducibi
            "joint / posterior of the model (false-alarm probability < 1e-9 per run)"]
 RULE = ("BNs of 1-5 nodes with label kinds incl. permuted / shifted integers, zero entries and latent sets; deterministic-CPD networks for "
         "exact row checks; sample sizes 1-3000; evidence with positive probability; Gibbs kernels for every configuration; simulate() with "
-        "do / evidence / virtual evidence; non-trivial = network has an edge; distinct = case JSON")
+        "do / evidence / virtual evidence; non-trivial = network has an edge; distinct = case JSON"
+        " Also: Gibbs chains (start state, support, frequencies), missingness, likelihood vectors with maximum 1, fixed seed across process hash seeds (sub-processes), start_state list reused.")
 ASSUMPTIONS = ["frequency bound: |f - p| <= 7 sqrt(p(1-p)/N) + 2/N per cell"]
 BUDGET_QUICK = 110
 LEVEL_TEXT = ("Kernel-checked: the Gibbs kernel computed from only the factors that mention the variable is the exact full conditional of the "
